@@ -107,6 +107,12 @@ impl LineParser {
         }
 
         self.in_command = false;
+        if self.command.is_empty() {
+            bail!(
+                "line {}: testcase output given before any shell expression. Did you forget to prefix the command with '$'?",
+                index + 1
+            )
+        }
         if let Some(exit_code) = extract_exit_code(line) {
             if self.exit_code.is_some() {
                 bail!("line {}: exit code provided multiple times", index + 1)
